@@ -73,7 +73,8 @@ func (Prop) Assumptions() []string {
 // generation
 
 // (the last two evaluate to "no value": an attribute expression and a call without a result)
-var lits = []string{"nil", "true", "false", "5", "-3", "1.5", `"s"`, `""`, `"12"`, "[1, 2]", `{"a": 1}`, "[]", `"2024-01-02 03:04:05"`, "zz.attr", "drop_key(nokey)"}
+var lits = []string{"nil", "true", "false", "5", "-3", "1.5", `"s"`, `""`, `"12"`, "[1, 2]", `{"a": 1}`, "[]", `"2024-01-02 03:04:05"`, "zz.attr", "drop_key(nokey)",
+	`"1700000000123456789"`, `"-9007199254740993"`, `"123456789012345678901234567890"`, `"1e3"`, `"0x1f"`, `" 42 "`, "9223372036854775807", "1e300", "-0.0"}
 
 func genOp(r *simrt.RNG, renameBias float64) Op {
 	keys := []string{"f1", "t1", "message", "_", "n1", "n2", "`sp k`"}
